@@ -848,6 +848,18 @@ def _expand_locals(f: FuncInfo, e: ast.AST) -> ast.AST:
             if counts[s_.path] == 1 and s_.kind == "assign" and s_.value is not None and s_.path not in params
             and isinstance(s_.target, ast.Name) and isinstance(s_.node, (ast.Assign, ast.AnnAssign))
             and not (isinstance(s_.node, ast.Assign) and any(isinstance(t, (ast.Tuple, ast.List)) for t in s_.node.targets))}
+    # `a, b = expr` (single unpacking of a non-display value): a -> expr[0], b -> expr[1]
+    for n in walk(f.node):
+        if isinstance(n, ast.Assign) and len(n.targets) == 1 and isinstance(n.targets[0], (ast.Tuple, ast.List)) \
+                and not isinstance(n.value, (ast.Tuple, ast.List)):
+            for i, t in enumerate(n.targets[0].elts):
+                if isinstance(t, ast.Name) and counts.get(t.id) == 1 and t.id not in params:
+                    defs[t.id] = ast.Subscript(value=n.value, slice=ast.Constant(value=i), ctx=ast.Load())
+        elif isinstance(n, ast.Assign) and len(n.targets) == 1 and isinstance(n.targets[0], (ast.Tuple, ast.List)) \
+                and isinstance(n.value, (ast.Tuple, ast.List)) and len(n.value.elts) == len(n.targets[0].elts):
+            for t, v in zip(n.targets[0].elts, n.value.elts):
+                if isinstance(t, ast.Name) and counts.get(t.id) == 1 and t.id not in params:
+                    defs[t.id] = v
     e = _clone(e)
     for _ in range(6):
         names = {n.id for n in ast.walk(e) if isinstance(n, ast.Name)}
@@ -903,24 +915,26 @@ def r1(ctx, pairs, seqs):
     # encode()/decode() of the QuantizedFloatBase family pass the same range to both directions
     qfb = repo.cls("QuantizedFloatBase", SERMOD)
     n = 0
-    for ci in repo.subclasses(qfb):
-        encf, decf = ci.methods.get("encode"), ci.methods.get("decode")
-        if encf is None and decf is None:
+    seen_pairs = set()
+    for ci in sorted(repo.subclasses(qfb), key=lambda c: (len(repo.mro(c)), c.qual)):
+        # looked up through the MRO: the pair may live in the base class (range read from a per-class hook)
+        encf, decf = repo.lookup_method(ci, "encode"), repo.lookup_method(ci, "decode")
+        if encf is None or decf is None or encf.cls is None or decf.cls is None \
+                or not _is_sub(repo, encf.cls, "QuantizedFloatBase") or not _is_sub(repo, decf.cls, "QuantizedFloatBase"):
             continue
-        encf = encf or repo.lookup_method(ci, "encode")
-        decf = decf or repo.lookup_method(ci, "decode")
-        if encf is None or decf is None or encf.cls is None or not _is_sub(repo, encf.cls, "QuantizedFloatBase") \
-                or not _is_sub(repo, decf.cls, "QuantizedFloatBase"):
+        if (encf.full, decf.full) in seen_pairs:
             continue
+        seen_pairs.add((encf.full, decf.full))
         ec = [c for c in calls(encf.node) if ap(c.func) == "self._float_to_quantized"]
         dc = [c for c in calls(decf.node) if ap(c.func) == "self._quantized_to_float"]
         n += 1
         ok = len(ec) == 1 and len(dc) == 1 and \
             [_t(_expand_locals(encf, a)) for a in ec[0].args[1:]] == [_t(_expand_locals(decf, a)) for a in dc[0].args[1:]] \
             and not ec[0].keywords and not dc[0].keywords and len(ec[0].args) == 3
-        ctx.ob("C10.R1", f"{ci.name}: encode and decode pass the same (lower, upper)", ok, encf.where,
+        owner = encf.cls.name if encf.cls == decf.cls else ci.name
+        ctx.ob("C10.R1", f"{owner}: encode and decode pass the same (lower, upper)", ok, encf.where,
                f"encode calls {[norm(c) for c in ec]}, decode calls {[norm(c) for c in dc]}")
-    ctx.floor("C10.R1", "concrete QuantizedFloatBase subclasses", n, 2)
+    ctx.floor("C10.R1", "encode/decode pairs of the QuantizedFloatBase family", n, 1)
 
 
 # ------------------------------------------------------------------------------------------ instances
